@@ -205,14 +205,16 @@ def core_states(consts, *, defdid="hash", tag="states", timeout=3600):
     return res
 
 
-def serial_states(consts, *, defdid="hash", tag="serial", timeout=3600):
-    """MC_Serial: serialisation laws on every state; every serialisable state printed with Encode(S)"""
+def serial_states(consts, *, defdid="hash", tag="serial", timeout=3600, all_states=False):
+    """MC_Serial: serialisation laws on every state; every serialisable state (all_states: every state) printed with
+    Encode(S)"""
     c = dict(consts)
     c["EmitOn"] = False
     cfg = WORK / "cfg" / f"{tag}-{os.getpid()}-{time.time_ns()}.cfg"
     cfg.parent.mkdir(parents=True, exist_ok=True)
     write_cfg(cfg, constants=c, subst={"DefDid": DEFDID_OP[defdid]}, view="View",
-              invariants=["InvWellFormed", "InvSiblingUnique", "InvEncode", "InvDictList", "EmitSerialInv"])
+              invariants=["InvWellFormed", "InvSiblingUnique", "InvEncode", "InvDictList",
+                          "EmitAllInv" if all_states else "EmitSerialInv"])
     try:
         return run_tlc("MC_Serial.tla", cfg, workers=1, tag=tag, timeout=timeout)
     finally:
